@@ -2122,3 +2122,7 @@ mod tests {
         )
     }
 }
+
+#[cfg(any(kani, ruffle_rs_h263_rs_verif))]
+#[path = "/verif/hooks/h263/parser/block.rs"]
+mod verif_hook;
